@@ -12,3 +12,5 @@ func pruneHoldArm(loop int, k int64)                        {}
 func pruneLoopIdle(loop int) int64                          { return 0 }
 func pruneHoldWait(loop int, idleBefore int64) (bool, bool) { return false, false }
 func pruneHoldRelease(idleBefore [2]int64) bool             { return false }
+
+func pruneOtherIdle(loop int, idleBefore int64) bool { return false }
